@@ -12,6 +12,8 @@ import (
 	"sort"
 	"sync"
 	"testing"
+
+	"verif/harness/internal/loglevel"
 )
 
 const maxSamples = 6
@@ -196,6 +198,9 @@ func (r *Recorder) SetExhaustive(b bool) { r.mu.Lock(); r.st.Exhaustive = b; r.m
 // case last) and stops statistics from being polluted by shrinking.
 func (r *Recorder) Fail(c any, format string, args ...any) string {
 	msg := fmt.Sprintf(format, args...)
+	if l := loglevel.Current(); l != "" {
+		msg += " (gateway log level of the case: " + l + ")"
+	}
 	r.mu.Lock()
 	r.failed = true
 	r.st.Failure = &Failure{Msg: msg, Case: c}
